@@ -53,6 +53,10 @@ set_option maxRecDepth 1000000 in
 /-- … and so has every object-valued slot -/
 theorem kinds_eq_model : Spec.stripUser user dump.kinds = Model.kindTable := by decide +kernel
 
+set_option maxRecDepth 1000000 in
+/-- every constructor, driven through [[Call]] and [[Construct]] by every route, creates what ES5 prescribes -/
+theorem routes_eq_spec : ∀ kv ∈ Spec.routes, Spec.assoc kv.1 dump.routes = some kv.2 := by decide +kernel
+
 /-! corollaries: the property for this configuration -/
 
 /-- every (owner, property) of ES5 §15 outside the deviation regions has exactly the specified shape -/
